@@ -48,9 +48,24 @@ def gterm(rng, d):
     return L(items)
 
 
+def big_term(rng):
+    """large terms: long lists, wide compounds, deep nesting (sizes around 16/32/64 where fast paths switch)"""
+    k = rng.choice(['list', 'wide', 'deep'])
+    n = rng.choice([15, 16, 17, 31, 32, 33, 40, 64, 65])
+    leaf = lambda: rng.choice([A('a'), A('b'), I(1), rng.choice(POOL)])
+    if k == 'list':
+        return L([leaf() for _ in range(n)], rng.choice([NIL, NIL, rng.choice(POOL)]))
+    if k == 'wide':
+        return C('w', *[leaf() for _ in range(n)])
+    t = leaf()
+    for _ in range(min(n, 40)):
+        t = C('f', t) if rng.random() < 0.7 else C('g', t, leaf())
+    return t
+
+
 def mutate_similar(rng, t, d=0):
     """a term similar to t (so that unification often succeeds non-trivially)"""
-    if rng.random() < 0.25:
+    if rng.random() < (0.25 if d < 3 else 0.03):
         return rng.choice(POOL)
     if t[0] == 'c':
         if rng.random() < 0.05:
@@ -292,8 +307,12 @@ def run_case(ctx, seed, idx, tier):
     else:
         if idx % 8 == 0:
             return run_online(ctx, rng)
-        t1 = gterm(rng, rng.choice([0, 1, 2, 3]))
-        t2 = mutate_similar(rng, t1) if rng.random() < 0.6 else gterm(rng, rng.choice([0, 1, 2, 3]))
+        if rng.random() < 0.06:
+            t1 = big_term(rng)
+            t2 = mutate_similar(rng, t1) if rng.random() < 0.8 else big_term(rng)
+        else:
+            t1 = gterm(rng, rng.choice([0, 1, 2, 3]))
+            t2 = mutate_similar(rng, t1) if rng.random() < 0.6 else gterm(rng, rng.choice([0, 1, 2, 3]))
         stack = []
         free = list(POOL)
         rng.shuffle(free)
